@@ -99,7 +99,7 @@ class Contract:
         ctx.assume(pre)
         self.havoc(I, inp)
         res = self.result(ctx, inp)
-        for nm, f in self.ensures(inp, res, I):
+        for nm, f in [c[:2] for c in self.ensures(inp, res, I)]:
             ctx.assume(f)
         ctx.trust_contract = getattr(ctx, 'trust_contract', set())
         ctx.trust_contract.add(self.target)
@@ -128,11 +128,11 @@ class Contract:
         except Exception as e:     # the real code raised
             exc = type(e).__name__
             checks = self.on_raise(inp, exc, None)
-            bad = [nm for nm, f in checks if not _truth(f)]
+            bad = [nm for nm, f in [c[:2] for c in checks] if not _truth(f)]
             return (not bad), dict(raised=exc, message=str(e)[:200], failed=bad)
         res = normalize(res)
         checks = self.ensures(inp, res, None)
-        bad = [nm for nm, f in checks if not nm.startswith('lemma:') and not _truth(f)]
+        bad = [nm for nm, f in [c[:2] for c in checks] if not nm.startswith('lemma:') and not _truth(f)]
         return (not bad), dict(result=jsonable(res), failed=bad)
 
 
@@ -356,6 +356,28 @@ def discharge(ob, timeout_ms=None):
     return ob
 
 
+def _nonlinear(f):
+    """does the formula contain a product of two non-numeral terms, a division/modulo by a non-numeral, or a quantifier?"""
+    seen = set()
+    stack = [f]
+    while stack:
+        t = stack.pop()
+        if t.get_id() in seen:
+            continue
+        seen.add(t.get_id())
+        if z3.is_quantifier(t):
+            return True
+        if z3.is_app(t):
+            k = t.decl().kind()
+            ch = t.children()
+            if k == z3.Z3_OP_MUL and sum(1 for c in ch if not (z3.is_int_value(c) or z3.is_rational_value(c))) >= 2:
+                return True
+            if k in (z3.Z3_OP_DIV, z3.Z3_OP_IDIV, z3.Z3_OP_MOD, z3.Z3_OP_REM) and not (z3.is_int_value(ch[1]) or z3.is_rational_value(ch[1])):
+                return True
+            stack.extend(ch)
+    return False
+
+
 def sat_check(pc, timeout_ms=5000):
     s = z3.Solver()
     s.set('timeout', timeout_ms)
@@ -500,27 +522,66 @@ def verify(contract, max_paths=None, only_prefix=None, path_index=0):
             except PyExc as e:
                 outcome = ('raise', e.cls)
             if outcome[0] == 'return':
-                for nm, f in contract.ensures(inp, outcome[1], I):
-                    # staged: a clause already stated is available as a lemma to the next one
-                    # (a refuted lemma is not assumed and is not itself a violation)
-                    kind = 'lemma' if nm.startswith('lemma:') else 'post'
-                    ctx.prove(nm, f, kind)
-                    ob = ctx.obligations[-1]
-                    if _EXPLORE_ONLY['on']:
-                        continue
-                    try:
-                        ob.meta['small'] = contract.small(inp)
-                    except Exception:
-                        pass
-                    if getattr(contract, 'prefer_solver', None):
-                        ob.meta['prefer'] = contract.prefer_solver
-                    discharge(ob)
-                    ob.meta.pop('small', None)
-                    if is_sym(f) and ob.status == 'unsat':
-                        ctx.pc.append(f)
+                clauses, dkind = contract.ensures(inp, outcome[1], I), 'post'
             else:
-                for nm, f in contract.on_raise(inp, outcome[1], I):
-                    ctx.prove(nm, f, 'post-raise')
+                clauses, dkind = contract.on_raise(inp, outcome[1], I), 'post-raise'
+            staged = []
+            for clause in clauses:
+                # staged: a clause already stated is available as a lemma to the next one
+                # (a refuted lemma is not assumed and is not itself a violation)
+                nm, f = clause[0], clause[1]
+                opts = clause[2] if len(clause) > 2 else {}
+                kind = 'lemma' if nm.startswith('lemma:') else dkind
+                ctx.prove(nm, f, kind)
+                ob = ctx.obligations[-1]
+                add = f
+                if 'generic' in opts:
+                    # a formula over fresh constants, proved with NO hypotheses (so it is valid for all values of
+                    # those constants); the instance obtained by substituting terms for the constants is then assumed
+                    ob.pc = []
+                    add = z3.substitute(f, *[(a, b) for a, b in opts['generic']])
+                    ob.meta['instance'] = _show(add)
+                elif 'hyps' in opts:
+                    # proved from fewer hypotheses (sound: dropping hypotheses only weakens what may be used):
+                    # the listed facts, each of which must be on the path (path condition or an established staged
+                    # clause), plus -- with linear=True -- every linear fact of the path
+                    keep = []
+                    for kf in opts['hyps']:
+                        if not any(kf.eq(c) for c in ctx.pc if is_sym(c)):
+                            raise Unsupported('clause %r uses a fact that is not on the path: %s' % (nm, _show(kf)))
+                        keep.append(kf)
+                    full_pc = ob.pc
+                    ob.pc = ([c for c in ctx.pc if is_sym(c) and not _nonlinear(c)] if opts.get('linear') else []) + keep
+                    ob.meta['hypotheses'] = '%s%d listed facts' % ('linear path facts + ' if opts.get('linear') else '', len(keep))
+                    gen = opts.get('generalise') or []
+                    if gen:
+                        # generalisation: each listed term is replaced by a fresh constant in every hypothesis and in
+                        # the goal (what holds for an arbitrary value holds for the term)
+                        pairs = [(t, z3.FreshConst(t.sort(), 'gen')) for t in gen]
+                        ob.pc = [z3.substitute(c, *pairs) for c in ob.pc]
+                        if is_sym(ob.goal):
+                            ob.goal = z3.substitute(ob.goal, *pairs)
+                        ob.meta['hypotheses'] += ', %d terms generalised' % len(gen)
+                if _EXPLORE_ONLY['on']:
+                    continue
+                if dkind == 'post-raise' and kind != 'lemma' and not opts:
+                    continue          # discharged with the other obligations of the path below
+                try:
+                    ob.meta['small'] = contract.small(inp)
+                except Exception:
+                    pass
+                if getattr(contract, 'prefer_solver', None):
+                    ob.meta['prefer'] = contract.prefer_solver
+                discharge(ob)
+                if 'hyps' in opts and ob.status != 'unsat':
+                    # nothing is concluded from the reduced hypothesis set except a proof
+                    ob.pc, ob.status, ob.model, ob.goal = full_pc, None, None, f
+                    ob.meta['hypotheses'] = 'all (the reduced set did not prove it)'
+                    discharge(ob)
+                ob.meta.pop('small', None)
+                if is_sym(add) and ob.status == 'unsat':
+                    ctx.pc.append(add)
+                    staged.append(add)
         except PathEnd:
             pass
         except Unsupported as e:
